@@ -27,7 +27,7 @@ def copy_repo(dst: Path, repo: Path = REPO):
     if out.exists():
         shutil.rmtree(out)
     subprocess.run(
-        ["rsync", "-a", "--exclude", "/target", "--exclude", "/.git", "--exclude", "/static-metric/target",
+        ["rsync", "-a", "--exclude", "/target", "--exclude", "/.git", "--exclude", "/static-metric/target", "--exclude", "/_seed", "--exclude", "/_*",
          str(repo) + "/", str(out) + "/"],
         check=True,
     )
